@@ -33,8 +33,10 @@ CONSTANTS RMKinds,        \* resource manager kinds explored
           BlockedCs,      \* set of blocked core index sets
           Backups,        \* backup node counts
           AgentCounts,    \* numbers of sub-agents on own nodes
-          Sweep,          \* "full" | "parse" | "filter": which part of the space (the odd LSF
-                          \* host files and the GPUs from the environment are in "parse")
+          Sweep,          \* "full" | "parse" | "filter" | "probe" | "quick": which part of the space (the
+                          \* odd LSF host files and the GPUs from the environment are in "parse",
+                          \* the per-node probe outcomes with 0..3 backup nodes in "probe")
+          ProbeBackups,   \* backup node counts of the probe sweep
           PrintCases,     \* print every input as <<"CASE", ...>> for the rig
           DevKeepDuplicates,   \* repeated host lines yield repeated entries
           DevKeepPseudo,       \* login / batch / launch node kept as a node
@@ -45,7 +47,9 @@ CONSTANTS RMKinds,        \* resource manager kinds explored
           DevCopyDropsService, \* registry copy loses the service node list
           DevRegistryKeyCase,  \* entry stored as rm.<Name>, looked up as rm.<name>
           DevLsfTrustConfig,   \* LSF: host file not checked when cores_per_node is configured
-          DevGpusAfterList     \* Slurm: node entries built before the GPUs are detected
+          DevGpusAfterList,    \* Slurm: node entries built before the GPUs are detected
+          DevTimeoutIsOk,      \* a probe that never answers counts as reachable
+          DevSplitByBackup     \* list split by the number of backup nodes, not by the request
 
 VARIABLES in,      \* the input (never changes)
           phase,   \* start parsed blocked cut reserved published recreated | failed
@@ -85,11 +89,14 @@ GpuSrcOf(r) == IF r = "SLURM" THEN {"config", "GPUS_ON_NODE", "JOB_GPUS", "STEP_
                ELSE {"config"}
 KnownOf(r)  == IF r \in {"FORK", "COBALT_FILE", "COBALT_PART", "PBSPRO_FILE"} THEN {TRUE} ELSE BOOLEAN
 
+\* number of nodes the RM lists (FORK invents them)
+NProbe(r, hs, rq, b) == IF r = "FORK" THEN rq + b ELSE Len(hs)
+
 MinOf(S) == CHOOSE x \in S : \A y \in S : x <= y
 
-InSweep(i) ==
+InSweep(sw, i) ==
   LET k == IF i.rm = "FORK" THEN 2 ELSE Len(i.hosts) IN
-  CASE Sweep = "parse" ->     \* every way to write an allocation, two layouts
+  CASE sw = "parse" ->     \* every way to write an allocation, two layouts
          \* LSF: the odd host files (pseudo nodes with several slots, partially listed
          \* host) are crossed with hosts / shape / SMT / configured-or-not, not with the
          \* GPU and blocked core settings
@@ -99,24 +106,42 @@ InSweep(i) ==
                /\ i.uneven => (i.pslots = 1 /\ i.pseudo \in {"none", "launch"})
          /\ \/ i.backup = 0 /\ i.agents = 0 /\ ~i.service /\ i.requested = k
             \/ i.backup = 1 /\ i.agents = 1 /\ ~i.service /\ i.requested = k - 1 /\ k - 1 >= 1
-    [] Sweep = "filter" ->    \* every layout, one way to write the allocation per RM
+    [] sw = "filter" ->    \* every layout, one way to write the allocation per RM
          /\ i.cores = MinOf(CoresOf(i.rm)) /\ i.pslots = 1 /\ ~i.uneven /\ i.gpusrc = "config"
          /\ i.hosts = HostSeq(Len(i.hosts), FALSE, "asc")
          /\ i.shape \in {"virtual", "expr", "vnode", "slot_adj"}
          /\ i.pseudo \in {"none"} /\ i.style \in {"range", "plain"}
-         /\ i.gpn = 0 /\ i.bc = {} /\ i.slack = 0
+         /\ i.gpn = 0 /\ i.bc = {} /\ i.slack = 0 /\ i.backup = 0
+    [] sw = "probe" ->     \* every probe outcome per node x request x backup, three RMs
+         /\ i.rm \in {"SLURM", "TORQUE", "FORK"}
+         /\ i.cores = MinOf(CoresOf(i.rm)) /\ i.smt = MinOf(SmtOf(i.rm)) /\ i.pslots = 1 /\ ~i.uneven
+         /\ i.gpusrc = "config" /\ i.gpn = 0 /\ i.bc = {} /\ i.slack = 0 /\ i.known
+         /\ i.hosts = HostSeq(Len(i.hosts), FALSE, "asc")
+         /\ i.shape \in {"virtual", "expr", "slot_adj"} /\ i.style \in {"range", "plain"}
+         /\ ~i.service /\ i.agents <= 1
+         /\ i.requested <= NProbe(i.rm, i.hosts, i.requested, i.backup)
+         /\ NProbe(i.rm, i.hosts, i.requested, i.backup) <= MaxHosts
     [] OTHER ->               \* "full": every layout x every classic way to write the allocation
          /\ ~i.uneven /\ i.pslots = 1 /\ i.gpusrc = "config"
          /\ i.cores = MinOf(CoresOf(i.rm)) \/ i.rm # "LSF"
 
-Inputs(r, hs, c, t, g, bc, b, a, sv) ==
-  UNION {
+\* outcomes of the probes of the nodes the RM lists
+ProbePlans(sw, n, b) == IF sw = "probe" /\ b > 0 /\ n <= MaxHosts THEN [1 .. n -> {"ok", "refused", "hangs"}]
+                    ELSE {[k \in 1 .. n |-> "ok"]}
+\* the probe sweep fixes the other dimensions: do not enumerate them first
+Lim(sw, S, keep) == IF sw = "probe" THEN S \cap keep ELSE S
+
+Inputs(sw, r, hs, c, t, g, bc, b, a, sv) ==
+  UNION { UNION {
   {[rm |-> r, hosts |-> hs, shape |-> sh, pseudo |-> ps, pslots |-> pn, uneven |-> un, style |-> st,
     cores |-> c, smt |-> t, known |-> kn, gpn |-> g[1], gpusrc |-> gs, bc |-> bc, bg |-> g[2],
-    requested |-> rq, slack |-> sl, backup |-> b, agents |-> a, service |-> sv] :
-      sh \in ShapesOf(r), pn \in PSlotsOf(r, ps), un \in UnevenOf(r), st \in StylesOf(r),
-      kn \in KnownOf(r), gs \in GpuSrcOf(r),
-      rq \in 1 .. (IF r = "FORK" THEN 3 ELSE Len(hs) + 1), sl \in {0, 1}}
+    requested |-> rq, slack |-> sl, backup |-> b, agents |-> a, service |-> sv,
+    refused |-> {k \in DOMAIN pr : pr[k] = "refused"}, hangs |-> {k \in DOMAIN pr : pr[k] = "hangs"}] :
+      sh \in Lim(sw, ShapesOf(r), {"virtual", "expr", "slot_adj"}), pn \in Lim(sw, PSlotsOf(r, ps), {1}),
+      un \in Lim(sw, UnevenOf(r), {FALSE}), st \in Lim(sw, StylesOf(r), {"range", "plain"}),
+      kn \in Lim(sw, KnownOf(r), {TRUE}), gs \in Lim(sw, GpuSrcOf(r), {"config"}), sl \in Lim(sw, {0, 1}, {0}),
+      pr \in ProbePlans(sw, NProbe(r, hs, rq, b), b)}
+  : rq \in 1 .. (IF r = "FORK" THEN 3 ELSE Len(hs) + 1)}
   : ps \in PseudoOf(r)}
 
 WellFormed(i) ==
@@ -134,19 +159,25 @@ WellFormed(i) ==
   /\ i.gpusrc # "config" => i.gpn > 0 /\ i.bg = {}
 
 \* the part of InSweep that can be decided before the input records are built
-PreSweep(r, hs, c, g, bc, b, a, sv) ==
-  CASE Sweep = "parse"  -> ~sv /\ ((b = 0 /\ a = 0) \/ (b = 1 /\ a = 1))
-    [] Sweep = "filter" -> g[1] = 0 /\ bc = {} /\ c = MinOf(CoresOf(r)) /\ hs = HostSeq(Len(hs), FALSE, "asc")
+PreSweep(sw, r, hs, c, g, bc, b, a, sv) ==
+  CASE sw = "parse"  -> ~sv /\ ((b = 0 /\ a = 0) \/ (b = 1 /\ a = 1))
+    [] sw = "filter" -> g[1] = 0 /\ bc = {} /\ b = 0 /\ c = MinOf(CoresOf(r)) /\ hs = HostSeq(Len(hs), FALSE, "asc")
+    [] sw = "probe"  -> /\ r \in {"SLURM", "TORQUE", "FORK"} /\ g = <<0, {}>> /\ bc = {} /\ ~sv /\ a <= 1
+                           /\ c = MinOf(CoresOf(r)) /\ hs = HostSeq(Len(hs), FALSE, "asc")
     [] OTHER            -> c = MinOf(CoresOf(r)) \/ r # "LSF"
 
+\* "quick" = the three partial sweeps in one run
+SweepsOf == IF Sweep = "quick" THEN {"parse", "filter", "probe"} ELSE {Sweep}
+
 Init ==
-  /\ \E r \in RMKinds :
+  /\ \E sw \in SweepsOf, r \in RMKinds :
        \E hs \in HostSeqs, c \in CoresOf(r), t \in SmtOf(r), g \in GpuCfgs,
-          bc \in BlockedCs, b \in Backups, a \in AgentCounts, sv \in BOOLEAN :
-         /\ PreSweep(r, hs, c, g, bc, b, a, sv)
+          bc \in BlockedCs, b \in (IF sw = "probe" THEN ProbeBackups ELSE Backups),
+          a \in AgentCounts, sv \in BOOLEAN :
+         /\ PreSweep(sw, r, hs, c, g, bc, b, a, sv)
          /\ r = "FORK" => hs = <<1>>
-         /\ \E i \in Inputs(r, hs, c, t, g, bc, b, a, sv) :
-              /\ WellFormed(i) /\ InSweep(i)
+         /\ \E i \in Inputs(sw, r, hs, c, t, g, bc, b, a, sv) :
+              /\ WellFormed(i) /\ InSweep(sw, i)
               /\ in = i
   /\ phase = "start" /\ full = <<>> /\ P = EmptyP /\ reg = "none" /\ copy = "none" /\ fromreg = FALSE
   /\ info = [cpn |-> 0, gpn |-> 0]
@@ -189,7 +220,7 @@ Parse ==
   /\ (PrintCases =>
         PrintT(<<"CASE", in.rm, in.hosts, in.shape, in.pseudo, in.pslots, in.uneven, in.style, in.cores,
                  in.smt, in.known, in.gpn, in.gpusrc, in.bc, in.bg, in.requested, in.slack, in.backup,
-                 in.agents, in.service>>))
+                 in.agents, in.service, in.refused, in.hangs>>))
   /\ UNCHANGED <<in, P, reg, copy, fromreg>>
 
 \* blocked cores / GPUs are marked DOWN in every entry
@@ -200,17 +231,25 @@ Blocked ==
   /\ phase' = "blocked"
   /\ UNCHANGED <<in, P, reg, copy, fromreg>>
 
-\* assert requested <= available; reduce to the requested size (_filter_nodes)
+\* assert requested <= available; with backup nodes: probe every node, keep the
+\* ones that answer; reduce to the requested size (_filter_nodes)
 Cut ==
   /\ phase = "blocked"
-  /\ IF Req(in) > Len(full)
-       THEN phase' = "failed" /\ UNCHANGED P
-       ELSE LET n   == IF DevNoCut THEN Len(full) ELSE Req(in)
-                cut == SubSeq(full, 1, n)
-            IN /\ P' = [EmptyP EXCEPT !.nodes  = cut,
-                                      !.backup = IF DevBackupAfterCut THEN SubSeq(cut, Req(in) + 1, Len(cut))
-                                                 ELSE SubSeq(full, Req(in) + 1, Len(full))]
-               /\ phase' = "cut"
+  /\ LET down == IF in.backup > 0
+                 THEN in.refused \cup (IF DevTimeoutIsOk THEN {} ELSE in.hangs) ELSE {}
+         ok   == KeepUp(full, 1, down)
+     IN IF Req(in) > Len(full) \/ Len(ok) = 0
+          THEN phase' = "failed" /\ UNCHANGED P
+          ELSE LET over == Len(ok) > Req(in)
+                   n    == IF DevNoCut \/ ~over THEN Len(ok)
+                           ELSE IF DevSplitByBackup
+                                THEN (IF in.backup = 0 THEN 0 ELSE Len(ok) - in.backup)   \* list[:-0] is empty
+                                ELSE Req(in)
+                   cut  == SubSeq(ok, 1, n)
+               IN /\ P' = [EmptyP EXCEPT !.nodes  = cut,
+                                         !.backup = IF DevBackupAfterCut THEN SubSeq(cut, Req(in) + 1, Len(cut))
+                                                    ELSE SubSeq(ok, Req(in) + 1, Len(ok))]
+                  /\ phase' = "cut"
   /\ UNCHANGED <<in, full, reg, copy, fromreg, info>>
 
 \* agent nodes, then the service node, are popped from the end of the list
@@ -264,6 +303,8 @@ InvDisjoint      == Offered => Disjoint(P, in)
 InvReserved      == Offered => Reserved(P, in)
 InvNonEmpty      == Offered => NonEmpty(P)
 InvNotLonger     == Offered => NotLonger(P, in)
+InvReachable     == Offered => Reachable(P, in)
+InvNotShorter    == Offered => NotShorter(P, in)
 InvSameEverywhere == phase = "recreated" => fromreg /\ copy = P
 \* initialisation refuses exactly the allocations that cannot serve the request
 \* and the host files that cannot be read consistently
